@@ -117,8 +117,14 @@ def new_ctx(it, hint='ctx'):
     st = it.st
     ik = st.alloc('dict', map=SymMap.fresh(st, 'input_kwargs'))
     ems = st.alloc('list', items=SymSeq.fresh(st, 'event_managers'))
+    store = st.fresh_val('store')
+    st.assume(store != NONE)      # representation invariant of DAGPipelineContext: __init__ installs a store instance
+    return _new_ctx(it, st, ik, ems, store)
+
+
+def _new_ctx(it, st, ik, ems, store):
     return new_obj(it, CTX_CLS, chart=SymV(st.fresh_val('chart')), pipeline_id=SymV(st.fresh_val('pipeline_id')),
-                   input_kwargs=ik, meta=SymV(st.fresh_val('meta')), artifact_store=SymV(st.fresh_val('store')),
+                   input_kwargs=ik, meta=SymV(st.fresh_val('meta')), artifact_store=SymV(store),
                    _event_managers=ems)
 
 
